@@ -63,6 +63,42 @@ CHECKS = {
             "clause (not before the edit, independent of later text) is monitored.",
             "x is the first invalidating token by construction (prefix is a prefix of a script "
             "accepted by both parser and R-SIEVE)."),
+    "C06": ("exploration", "DESIGN.md §3 C06",
+            "runtime monitoring: output oracles on every rendered set (real parser, R-SIEVE "
+            "strict judge, require-cover walk, structure/injection count against the expected "
+            "model of the definition) with counterfactual attribution",
+            "Sets are built through the public FiltersSet API from generated definitions "
+            "(every condition/action kind, tags, value alphabets incl. quotes/backslashes/"
+            "newlines) and from edit histories; each rendering is judged by four independent "
+            "oracles. A violation that vanishes when quotes and backslashes are removed from "
+            "the same definition is attributed to the missing-escaping mechanism.",
+            "Trusted: R-SIEVE strict judge/generic parser, the expected-structure model in "
+            "rv/filtgen.py. Values starting with a quote character excluded."),
+    "C11": ("exploration", "DESIGN.md §3 C11",
+            "runtime monitoring: save/reload differential + fixed-point monitor over sets "
+            "reached by operation histories",
+            "For each reachable set: render, parse with the real parser, from_parser_result, "
+            "compare names/order/enabled/descriptions/requires and per-filter trees "
+            "(R-SIEVE normal form), then reload the reloaded rendering and demand a byte-"
+            "identical fixed point; default and custom marker prefixes.",
+            "Names/descriptions single-line without marker prefixes; requires compared as sets."),
+    "C12": ("exploration", "DESIGN.md §3 C12",
+            "runtime monitoring: icontract class invariants on the real FiltersSet + lock-step "
+            "postconditions against an executable list model (R-LIST); exhaustive short "
+            "histories",
+            "All operation sequences up to length 3 (quick) / 4 (thorough) over 42 operations "
+            "on 3 names, plus random sequences up to 25, are executed on the real class with "
+            "invariants (unique names; enabled flag == is_filter_disabled == rendering wrapped "
+            "in if-false) evaluated after every public call and every return value / exception "
+            "/ order / enabled flag / getfilter content compared with the model step by step.",
+            "Trusted: RList model in rv/factlab.py. Exhaustive only up to the stated length."),
+    "C19": ("exploration", "DESIGN.md §3 C19",
+            "runtime monitoring: read-back equality monitor over four views (original, "
+            "disabled, re-enabled, reloaded) with counterfactual attribution",
+            "Generated definitions from the supported forms are added through the public API "
+            "and get_filter_conditions/actions/matchtype are compared with what was supplied, "
+            "in each of the four views.",
+            "Normal form: tuples, numbers by str(); quotes/backslashes are C06's."),
 }
 
 
